@@ -188,6 +188,102 @@ def _flag_loop_normal_form(loop, f):
     return target, g
 
 
+def _positive_threshold(b, f, idx):
+    if isinstance(const(b), (int, float)) and const(b) >= 0:
+        return True
+    if isinstance(b, ast.Name):
+        r = idx.resolve_name(f.module, b.id)
+        val = r[1] if r and r[0] == "const" else None
+        if isinstance(val, (int, float)) and val > 0:
+            return True
+        node = f.module.const_nodes.get(b.id)
+        return node is not None and "EPSILON" in u(node)
+    return False
+
+
+def _gain_guarded(func, stmt, pm, idx, stop_at):
+    """stmt lies inside an `if X > K:` (K a positive constant) within stop_at: returns the test text or None"""
+    cur = stmt
+    while cur is not stop_at and cur in pm:
+        par = pm[cur]
+        if isinstance(par, ast.If) and cur in par.body and ncmp(par.test) is not None:
+            op, lo, hi = ncmp(par.test)            # lo < hi
+            if op == "<" and _positive_threshold(lo, func, idx):
+                return u(par.test)
+        cur = par
+    return None
+
+
+def _flag_sets(func, body, flag, cont_val, idx):
+    """all assignments `flag = cont_val` in body are under a strict gain test; returns (ok, evidence list, n sets)"""
+    pmf = parent_map(func.node)
+    ev, n, ok = [], 0, True
+    for st in iter_stmts(body):
+        if isinstance(st, ast.Assign) and any(u(t) == flag for t in st.targets):
+            v = const(st.value)
+            if v is cont_val:
+                n += 1
+                g = _gain_guarded(func, st, pmf, idx, func.node)
+                if g is None:
+                    ok = False
+                else:
+                    ev.append(g)
+            elif v is (not cont_val):
+                continue
+            else:
+                ok = False
+    return ok, ev, n
+
+
+def _progress_flag(loop, f, idx, pm):
+    t = loop.test
+    flag, cont_val, exit_in_body = None, None, False
+    if isinstance(t, ast.UnaryOp) and isinstance(t.op, ast.Not) and isinstance(t.operand, ast.Name):
+        flag, cont_val = t.operand.id, False
+    elif isinstance(t, ast.Name):
+        flag, cont_val = t.id, True
+    elif const(t) is True:
+        # while True: ... if not F: return / break      (the exit test must be at the top level of the body)
+        for st in loop.body:
+            if isinstance(st, ast.If) and _always_exits(st.body) and not st.orelse:
+                tt = st.test
+                if isinstance(tt, ast.UnaryOp) and isinstance(tt.op, ast.Not) and isinstance(tt.operand, ast.Name):
+                    flag, cont_val, exit_in_body = tt.operand.id, True, True
+                elif isinstance(tt, ast.Name):
+                    flag, cont_val, exit_in_body = tt.id, False, True
+    if flag is None:
+        return None
+    stop_val = not cont_val
+    # (a) the flag is reset to the stop value at the start of every round and set to the continue value only under a gain test
+    first = loop.body[0] if loop.body else None
+    reset = isinstance(first, ast.Assign) and any(u(t_) == flag for t_ in first.targets) and const(first.value) is stop_val
+    if reset:
+        ok, ev, n = _flag_sets(f, loop.body, flag, cont_val, idx)
+        if ok and n >= 1:
+            return "PROGRESS", "progress flag %s: reset at the start of every round, set to continue only when %s (strict gain over a finite vertex set)" % (flag, "; ".join(sorted(set(ev))))
+        return None
+    # (b) the flag is the result of a helper that reports whether it moved:  x, F = helper(...)
+    asg = [st for st in loop.body if isinstance(st, ast.Assign) and isinstance(st.value, ast.Call)
+           and any(isinstance(t_, ast.Tuple) and any(u(e) == flag for e in t_.elts) for t_ in st.targets)]
+    others = [st for st in iter_stmts(loop.body) if isinstance(st, (ast.Assign, ast.AugAssign)) and st not in asg
+              and any(isinstance(n_, ast.Name) and n_.id == flag and isinstance(n_.ctx, ast.Store) for n_ in ast.walk(st))]
+    if len(asg) == 1 and not others and cont_val is True:
+        pos = [i for i, e in enumerate(asg[0].targets[0].elts) if u(e) == flag][0]
+        callee = idx.resolve_call(f.module, asg[0].value, f.cls)
+        fn = getattr(callee, "node", None)
+        if isinstance(fn, ast.FunctionDef):
+            rets = [st for st in ast.walk(fn) if isinstance(st, ast.Return) and isinstance(st.value, ast.Tuple) and len(st.value.elts) > pos]
+            names = {u(r.value.elts[pos]) for r in rets}
+            if rets and len(names) == 1 and isinstance(rets[0].value.elts[pos], ast.Name):
+                hflag = names.pop()
+                inits = [st for st in fn.body if isinstance(st, ast.Assign) and any(u(t_) == hflag for t_ in st.targets)]
+                ok, ev, n = _flag_sets(callee, fn.body, hflag, True, idx)
+                inner_ok = all(isinstance(l, ast.For) and classify_for(l, callee, idx)[0] is not None for l in ast.walk(fn) if isinstance(l, (ast.For, ast.While)))
+                if inits and const(inits[0].value) is False and ok and n >= 1 and inner_ok:
+                    return "PROGRESS", "progress flag %s = result of %s(...), which reports True only when %s (strict gain over a finite vertex set)" % (flag, callee.name, "; ".join(sorted(set(ev))))
+    return None
+
+
 def classify_while(loop, f, idx):
     nf = _flag_loop_normal_form(loop, f)
     if nf is not None:
@@ -396,6 +492,12 @@ def classify_while(loop, f, idx):
                     dec_ok = False
             if top_inc and dec_ok and loop.body[-1] is top_inc[-1]:
                 return "STRUCT", "shrink scan: every iteration either advances %s or removes one element (bound %s is decremented by the callee): the variant %s - %s drops by one" % (c, u(b), u(b), c)
+    # ---------------- progress flag, general form: the loop goes round again only if, during the round, a STRICT gain over a positive constant was
+    #                  seen.  Recognised however the flag is organised: `while not converged` (reset to True, cleared on gain), `while improved`
+    #                  (assigned from a helper that reports whether it moved), `while True: improved = False ... if not improved: return`.
+    pf = _progress_flag(loop, f, idx, pm)
+    if pf is not None:
+        return pf
     # ---------------- flag progress (hill climbing)
     if isinstance(loop.test, ast.UnaryOp) and isinstance(loop.test.op, ast.Not) and isinstance(loop.test.operand, ast.Name):
         flag = loop.test.operand.id
